@@ -192,7 +192,35 @@ func (c *compiler) evalUserFunction(node *userFunction, args []ast.Expression) (
 		c.ctx.Set(p.Value, vals[i])
 	}
 
-	return c.evalBlockStatement(node.Block)
+	res, err := c.evalBlockStatement(node.Block)
+	if err != nil {
+		return nil, err
+	}
+
+	// the call's value is the returned value itself, not the return wrapper
+	if ro, ok := res.(returnObject); ok {
+		vals := flattenReturn(ro, nil)
+		if len(vals) == 1 {
+			return vals[0], nil
+		}
+
+		return vals, nil
+	}
+
+	return res, nil
+}
+
+func flattenReturn(ro returnObject, acc []interface{}) []interface{} {
+	for _, v := range ro.Value {
+		if inner, ok := v.(returnObject); ok {
+			acc = flattenReturn(inner, acc)
+			continue
+		}
+
+		acc = append(acc, v)
+	}
+
+	return acc
 }
 
 func (c *compiler) evalFunctionLiteral(node *ast.FunctionLiteral) (interface{}, error) {
